@@ -19,6 +19,7 @@ COUNT = {"quick": 6000, "thorough": None}
 BUDGET = {"quick": 45, "thorough": 600}
 CHUNK = 4000
 RULE = (
+    'Kept-object stratum (index%10==7): one EnsembleEvaluator object answers 2-5 requests (functions / gradient / both) at points that share their free variables and differ in the fixed ones, affine world with a mask. '
     "affine ensembles (index-hashed slopes/offsets; identical realizations in 25% of merged runs); samplers: built-in "
     "norm/uniform/truncnorm/sobol/halton/lhs or inject designs identity/pm/hash/rankdef; shared or per realization; "
     "1-6 perturbations; 2-3 samplers on disjoint variable sets in 25%; masks; absolute/relative magnitudes; boundary types; variable scaling; filters; stddev; NaN "
